@@ -446,7 +446,8 @@ impl Property for C43a {
         ]
     }
     fn known_signature(&self, case: &Case) -> Option<String> {
-        evaluate_cached(case).err().map(|(class, _)| class)
+        // outside the engine's panic guard: let a panic surface through `run` instead
+        std::panic::catch_unwind(std::panic::AssertUnwindSafe(|| evaluate_cached(case))).ok().and_then(|r| r.err()).map(|(class, _)| class)
     }
     fn run(&self, case: &Case) -> CaseResult {
         match evaluate_cached(case) {
